@@ -649,6 +649,10 @@ impl<'tcx> Cx<'tcx> {
             let _ = write!(o, ",\"reachable\":{}", eff);
             let sig = tcx.fn_sig(did).instantiate_identity().skip_norm_wip();
             let _ = write!(o, ",\"unsafe\":{}", !sig.safety().is_safe());
+            // names of the type parameters, in the order of the type-valued generic args of a call (`targs`)
+            let ids = ty::GenericArgs::identity_for_item(tcx, did);
+            let names: Vec<String> = ids.iter().filter_map(|a| a.as_type()).map(|t| esc(&t.to_string())).collect();
+            let _ = write!(o, ",\"tparams\":[{}]", names.join(","));
             if let Some(imp) = tcx.impl_of_assoc(did) {
                 let st = tcx.type_of(imp).instantiate_identity().skip_norm_wip();
                 let _ = write!(o, ",\"impl_self\":{}", self.ty_json(st, env));
